@@ -104,6 +104,13 @@ fn gen_c19(run_seed: u64, tier: Tier) -> (Scenario, Scenario, bool) {
         p.ttls = vec![1, 2, 5, 30];
         p.whole_seconds = true;
         p.cmds = p.cmds.min(60);
+        // half of the whole-server pairs: a small item limit and values on both sides of it, so
+        // that 'too large' is among the errors a quiet variant has to report like its loud twin
+        if prng.chance(1, 2) {
+            knobs.item_limit = 1024;
+            p.max_value = 3000;
+            p.big_value_pct = 15;
+        }
     }
     let mut wrng = Rng::sub(run_seed, "workload");
     let mut g = Gen::new(&mut wrng, p);
